@@ -25,6 +25,8 @@ def run(ck, fb):
     r03d(ck, fb)
     r03e(ck, fb)
     r03f(ck, fb)
+    r03g(ck, fb)
+    ck.borrow('rules.c02', {'R02a': 'R03h'}, 'the index-area rewind of strip_log_to sizes what write() stored')
 
 
 def r03a(ck, fb):
@@ -133,6 +135,22 @@ def r03b(ck, fb):
         if f in ('data_cursor', 'msg_count'):
             ck.require(any(t.op_tainted(x) for x in rv_operands(st['rv'])), 'R03b', 'strip_log_to:%s<-recount' % f, s.where(bb),
                        '%s is not taken from move_to_index_by_count' % f)
+    # current_index_count (records since the last index entry) is measured from the index entry the recount started at: the value must be
+    # derived from the get_file_index_by_log_index result / the indexs list, never from absolute log indexes (end index, start_index)
+    # calls on the whole manager (self.get_end_index() ...) do not propagate: which fields they read is not visible at the call site
+    ts = Taint(s, call_src=lambda t: (t.get('f') or {}).get('d', '').endswith('get_file_index_by_log_index'), place_src=field_place_src('indexs'),
+               stop_calls=lambda t: 'LogInnerManager::' in ((t.get('f') or {}).get('d', '')) and not (t.get('f') or {}).get('d', '').endswith('get_file_index_by_log_index'))
+    m0 = s.calls(r'LogInnerManager::move_to_index_by_count$')
+    for (o, f, bb, st) in s.field_writes():
+        if f == 'current_index_count':
+            ok = any(ts.op_tainted(x) for x in rv_operands(st['rv']))
+            ck.require(ok, 'R03b', 'strip_log_to:current_index_count<-segment-start', s.where(bb),
+                       'current_index_count is not measured from the index entry found for the cut point (it is computed from absolute log indexes): '
+                       'when the file does not start on a multiple of the index interval the next index entry is written at the wrong record and '
+                       'read_indexs, which assumes entries exactly one interval apart, mis-places every later entry after a reopen')
+    for x in m0:
+        ck.require(len(x.args) >= 4 and ts.op_tainted(x.args[3]), 'R03b', 'strip_log_to:recount-from-segment-start', x.where(),
+                   'the number of records to re-count is not measured from the index entry the scan starts at')
     # early exit only when nothing is to remove: end_index >= get_end_index()
     early = [i for (i, j, st) in s.aggregates(r'std::result::Result$', 'Ok') if st['d'] == 0]
     # move_to_index_by_count count argument = end_index - index.log_index
@@ -232,3 +250,64 @@ def r03f(ck, fb):
             if f == 'current_index_count':
                 ck.require(any(t.op_tainted(x) for x in rv_operands(stt['rv'])), 'R03f', 'strip_log_to:current_index_count<-cut', b.where(bb),
                            'current_index_count is not derived from the cut position / the recount')
+
+
+def r03g(ck, fb):
+    ck.rule('R03g', 'recount honours every requested count, including 0: in move_to_index_by_count the first consumption of a record '
+                    '(MessageBufReader::next_message_vec) is preceded on every path by a test of the requested count (the value the loop counter is '
+                    'compared with). strip_log_to asks for end_index - segment_start records, which is 0 when the cut point is the first record '
+                    'of an index segment; a loop that counts first and compares afterwards never stops there and keeps the whole suffix')
+    b = ck.main(LIM + 'move_to_index_by_count', 'R03g')
+    if not b:
+        return
+    from rn.facts import op_place, pl_local, pl_proj
+
+    def root(op, depth=0):
+        pl = op_place(op)
+        if pl is None or pl_proj(pl):
+            return None
+        l = pl_local(pl)
+        ds = b.defs.get(l, [])
+        if depth < 6 and len(ds) == 1 and ds[0][0] == 'stmt' and ds[0][3]['rv']['k'] == 'use':
+            r = root(ds[0][3]['rv']['op'], depth + 1)
+            return r if r is not None else l
+        return l
+    # loop counters: locals advanced by the constant 1
+    counters = set()
+    for (i, j, st) in b.stmts():
+        rv = st.get('rv')
+        if rv and rv['k'] == 'bin' and rv['op'] in ('Add', 'AddWithOverflow') and 'c' in rv['b'] and str(rv['b']['c'].get('v')) == '1':
+            r = root(rv['a'])
+            if r is not None:
+                counters.add(r)
+    # the requested count: the other side of an equality/ordering test of a counter
+    wanted = set()
+    for (i, j, st) in b.stmts():
+        rv = st.get('rv')
+        if rv and rv['k'] == 'bin' and rv['op'] in ('Eq', 'Ge', 'Gt', 'Le', 'Lt', 'Ne'):
+            ra, rb = root(rv['a']), root(rv['b'])
+            if ra in counters and rb is not None and rb not in counters:
+                wanted.add(rb)
+            if rb in counters and ra is not None and ra not in counters:
+                wanted.add(ra)
+    if not ck.require(len(wanted) >= 1, 'R03g', 'move_to_index_by_count:stop-test', b.where(), 'the recount loop no longer compares its counter with the requested count'):
+        return
+    nm = b.calls(r'MessageBufReader::next_message_vec$')
+    ck.floor('R03g', 'record consumption sites', len(nm), 1)
+    wdesc = set()
+    for l in wanted:
+        wdesc.add(cfg.fmt_desc(cfg.describe_operand(b, {'cp': {'l': l, 'p': []}})))
+    for s in nm:
+        ok = False
+        for a in cfg.guard_atoms(b, s.bb):
+            if a[0] != 'cmp':
+                continue
+            for side in (a[2], a[3]):
+                if side.get('k') in ('arg', 'unknown', 'multi') and side.get('l') in wanted:
+                    ok = True
+                if cfg.fmt_desc(side) in wdesc:
+                    ok = True
+        ck.require(ok, 'R03g', 'move_to_index_by_count:count-tested-before-first-record', s.where(),
+                   'a record is consumed before the requested count was looked at: with count == 0 (truncation exactly at the start of an index '
+                   'segment, or at the first entry of the file) the counter is already 1 at the first comparison, never equals 0, and the scan runs '
+                   'to the end of the data - strip_log_to keeps every entry it was asked to remove', 'requested count tested first')
